@@ -710,6 +710,10 @@ def run(report, tier, seed):
             add_coq_case(cc, p, spec, res2, {"stream": stream, "signs": alt})
         if have_sympy and not spec["shape"] and spec["dtype"] in ("int64", "float64"):
             sympy_roundtrip(p, spec, viol, stats)
+            # ... and under alternative exponent / multiply signs and another term order (D40: to_sympy evaluates text)
+            with numpoly.global_options(display_exponent=alt[0], display_multiply=alt[1], display_graded=st[0],
+                                        display_reverse=st[1], display_inverse=st[2]):
+                sympy_roundtrip(p, spec, viol, stats)
         if k < 2 and res is not None:
             report.sample({"stream": stream, "str": str(p)[:120], "repr": repr(p)[:120]}, cap=14)
     # sympy round trip of integer coefficients beyond 2**53 (not on the float64 grid) and of names q2/q10
